@@ -2,7 +2,7 @@
    Statements only; every proof is [exact <lemma>].
 
    Vocabulary.  Spec/Deque.v: a pool of deques (lists of items); a history is a list of
-   (slot, call) with calls Next | NextBack | Nth k | Len | SizeHint | Count | Clone; [run full pool hist]
+   (slot, call) with calls Next | NextBack | Nth k | Len | SizeHint | Count | Clone | NthBack k; [run full pool hist]
    is the list of outputs; [full] says the iterator is double-ended and exact-size.
    Model/Iters.v: an iterator is a record of its methods over a state ([iter_impl]); [m_run impl pool hist]
    runs the same history on the model and is [Fault _] if any call panics / runs out of fuel.
@@ -343,3 +343,122 @@ Example C18_nonvacuous_adaptors :
   /\ m_run (wrap_int_impl (fun x : N => x + 1) (fun x : N => (64, x)) (fun p : N * N => snd p)) [[1; 2; 3]] [(0%nat, SizeHint); (0%nat, Nth 2); (0%nat, Count)]
      = Ok [OHint 0 None; OItem 4; ONum 0].
 Proof. exact ItersMoreProofs.ex_nidx_run. Qed.
+
+(* ====================================================================================================
+   nth_back.  DoubleEndedIterator::nth_back is callable on every double-ended iterator the library hands out (RichIter,
+   imports::Iter, debug::Iter, Exception::functions, Entries, IAT::iter, Desc::int, Desc::iat, SectionHeaders::iter).  [op]
+   has the constructor [NthBack k], so EVERY theorem above that quantifies over histories now also covers histories
+   containing nth_back: C18_rich_all_histories (RichIter does not define nth_back: the provided loop over
+   RichIter::next_back), C18_delegating (imports::Iter / debug::Iter define next_back only: the provided loop over their
+   own next_back), C18_adaptor_exact / C18_entries (Map inherits nth_back: [provided_nth_count] now also says so),
+   C18_slice_iter (slice::Iter's own nth_back, trusted), C18_range (Range's nth_back with backward_checked; [range_inv]
+   now bounds the start as well as the end, because nth_back sets end := start).  On the forward-only families [NthBack]
+   is [OUnsupported] in the model and in the deque, exactly as [NextBack].
+   ==================================================================================================== *)
+
+(* nth_back k: the item with k items behind it, leaving what precedes it *)
+Theorem C18_deque_nth_back : forall (A : Type) (l0 : list A) x r k, lenN r = k -> dq_nth_back (l0 ++ x :: r) k = (l0, OItem x).
+Proof. exact @ItersProofs.dq_nth_back_meaning. Qed.
+Print Assumptions C18_deque_nth_back.
+
+(* fewer than k+1 items: none, and the deque is left empty *)
+Theorem C18_deque_nth_back_none : forall (A : Type) (l : list A) k, lenN l <= k -> dq_nth_back l k = ([], ONone).
+Proof. exact @ItersProofs.dq_nth_back_none. Qed.
+Print Assumptions C18_deque_nth_back_none.
+
+(* nth_back is nth on the reversed deque; nth_back 0 is next_back *)
+Theorem C18_deque_nth_back_reversed : forall (A : Type) (l : list A) k,
+  dq_nth_back l k = (rev (fst (dq_nth (rev l) k)), snd (dq_nth (rev l) k)).
+Proof. exact @ItersProofs.dq_nth_back_rev. Qed.
+Print Assumptions C18_deque_nth_back_reversed.
+Theorem C18_deque_nth_back_0 : forall (A : Type) (l : list A), dq_nth_back l 0 = dq_next_back l.
+Proof. exact @ItersProofs.dq_nth_back_0. Qed.
+Print Assumptions C18_deque_nth_back_0.
+
+(* std's provided nth_back (advance_back_by, then next_back) over ANY next_back that steps a sequence from the back is the
+   deque's nth_back: it never faults, the fuel (one call per item + 1) suffices, and an overshoot leaves the iterator
+   exhausted *)
+Theorem C18_provided_nth_back : forall (S A : Type) (next_back : S -> res (option A * S)) (abs : S -> list A) (Inv : S -> Prop),
+  (forall s, Inv s -> exists o s', next_back s = Ok (o, s') /\ Inv s' /\
+       opt_out o = snd (dq_next_back (abs s)) /\ abs s' = fst (dq_next_back (abs s))) ->
+  forall fuel s k, Inv s -> (length (abs s) < fuel)%nat ->
+  exists o s', prov_nth_back next_back fuel s k = Ok (o, s') /\ Inv s' /\
+    opt_out o = snd (dq_nth_back (abs s) k) /\ abs s' = fst (dq_nth_back (abs s) k).
+Proof. exact @ItersProofs.prov_nth_back_sim. Qed.
+Print Assumptions C18_provided_nth_back.
+
+(* not callable on a forward-only iterator - in the model and in the deque - exactly as next_back *)
+Theorem C18_nth_back_forward_only : forall (S A : Type) (impl : iter_impl S A) (s : S) (l : list A) k, m_full impl = false ->
+  m_step1 impl s (NthBack k) = Ok (s, OUnsupported) /\ step1 false l (NthBack k) = (l, OUnsupported) /\
+  m_step1 impl s NextBack = Ok (s, OUnsupported) /\ step1 false l NextBack = (l, OUnsupported).
+Proof. exact @ItersMoreProofs.nth_back_unsupported. Qed.
+Print Assumptions C18_nth_back_forward_only.
+
+(* ---- Exception::functions: image.iter().map(|image| Function { pe, image }), the Map itself ---- *)
+Theorem C18_exception_functions : forall (B A : Type) (f : B -> A) hist (pool : list (list B)), Forall (fun l => lenN l < W64) pool ->
+  m_run (exc_functions_impl f) pool hist = Ok (run true (map (map f) pool) hist).
+Proof. exact @ItersMoreProofs.exc_functions_faithful. Qed.
+Print Assumptions C18_exception_functions.
+
+(* ---- SectionHeaders::iter / IntoIterator for &SectionHeaders: as_slice().iter() ---- *)
+Theorem C18_section_headers_iter : forall (B : Type) hist (pool : list (list B)), m_run sections_iter_impl pool hist = Ok (run true pool hist).
+Proof. exact @ItersMoreProofs.sections_iter_faithful. Qed.
+Print Assumptions C18_section_headers_iter.
+
+(* ---- flags!::to_strs: FilterMap over Range<u32> behind `impl Clone + Iterator` ---- *)
+
+(* FilterMap of a sequence (find_map over the inner next) = the answers that are Some, in order; the size hint is
+   (0, the inner upper bound).  The fuel of the find_map loop must cover the inner sequence. *)
+Theorem C18_filter_map : forall (S B A : Type) (inner : iter_impl S B) (f : B -> option A) (measure : S -> nat)
+    (absi : S -> list B) (Invi : S -> Prop),
+  (forall s, Invi s -> (length (absi s) <= measure s)%nat) ->
+  forall e, prim_ok e inner absi Invi ->
+  prim_ok false (filter_map_impl inner f measure) (fun s => fm_list f (absi s)) Invi.
+Proof. exact @ItersMoreProofs.filter_map_prim. Qed.
+Print Assumptions C18_filter_map.
+
+(* to_strs of a value of a [bits]-bit flag type: under every history (next, nth, size_hint, count, clone; next_back /
+   nth_back / len do not exist) a faithful forward sequence of the identifiers of the set bits the table names, by
+   increasing bit index from bit 0; size hints are valid bounds *)
+Theorem C18_to_strs : forall (A : Type) (flag_str : N -> option A) (value bits : N) hist, bits < W32 ->
+  exists outs, m_run (to_strs_impl flag_str value) [to_strs_start bits] hist = Ok outs /\
+               Forall2 (out_ok false) (run false [fm_list (to_strs_f flag_str value) (nseq 0 (N.to_nat bits))] hist) outs.
+Proof. exact @ItersMoreProofs.to_strs_faithful. Qed.
+Print Assumptions C18_to_strs.
+
+Theorem C18_to_strs_item : forall (A : Type) (flag_str : N -> option A) value i,
+  to_strs_f flag_str value i = if N.testbit value i then flag_str i else None.
+Proof. exact @ItersMoreProofs.to_strs_f_testbit. Qed.
+Print Assumptions C18_to_strs_item.
+
+(* nth_back changes what later calls see: after nth_back(1) on five items, len is 3, next_back gives the third item;
+   without it len is 5 and next_back gives the fifth.  The same history on Map<slice::Iter> (inherited nth_back),
+   imports::Iter / debug::Iter (provided loop over their next_back), slice::Iter (its own), Range<u32> (its own),
+   RichIter (provided loop); OUnsupported on a forward-only family *)
+Example C18_nonvacuous_nth_back :
+  m_run (exc_functions_impl (fun x : N => x + 100)) [[1; 2; 3; 4; 5]] ex_nth_back_hist
+  = Ok [OCloned; OItem 104; ONum 3; OItem 103; OItem 101; ONone; ONone; OHint 0 (Some 0); OItem 102; ONone; ONone]
+  /\ m_run (exc_functions_impl (fun x : N => x + 100)) [[1; 2; 3; 4; 5]] [(0%nat, Len); (0%nat, NextBack); (0%nat, Next)]
+     = Ok [ONum 5; OItem 105; OItem 101]
+  /\ m_run (deleg_impl (fun x : N => x + 100)) [[1; 2; 3; 4; 5]] ex_nth_back_hist
+     = Ok [OCloned; OItem 104; ONum 3; OItem 103; OItem 101; ONone; ONone; OHint 0 (Some 0); OItem 102; ONone; ONone]
+  /\ m_run (@slice_impl N) [[1; 2; 3; 4; 5]] ex_nth_back_hist
+     = Ok [OCloned; OItem 4; ONum 3; OItem 3; OItem 1; ONone; ONone; OHint 0 (Some 0); OItem 2; ONone; ONone]
+  /\ m_run range_impl [(1, 6)] ex_nth_back_hist
+     = Ok [OCloned; OItem 4; ONum 3; OItem 3; OItem 1; ONone; ONone; OHint 0 (Some 0); OItem 2; ONone; ONone]
+  /\ m_run rich_impl [(ex_words, ex_key)] [(0%nat, NthBack 1); (0%nat, Len); (0%nat, NextBack); (0%nat, NextBack)]
+     = Ok [OItem {| r_build := 9; r_product := 258; r_count := 0 |}; ONum 1; OItem {| r_build := 7; r_product := 7; r_count := 3 |}; ONone]
+  /\ m_run (exp_iter_impl (fun x : N => x)) [[1; 2; 3]] [(0%nat, NthBack 1); (0%nat, NextBack); (0%nat, Len); (0%nat, Next)]
+     = Ok [OUnsupported; OUnsupported; OUnsupported; OItem 1].
+Proof. exact ItersMoreProofs.ex_nth_back_run. Qed.
+
+(* to_strs of 0x2022 (bits 1, 5, 13) with a table naming bits 0..7 and 13 *)
+Example C18_nonvacuous_to_strs :
+  m_run (to_strs_impl ex_flag_str 8226) [to_strs_start 16]
+        [(0%nat, SizeHint); (0%nat, Count); (0%nat, Clone); (0%nat, Next); (0%nat, SizeHint); (0%nat, Nth 1); (0%nat, SizeHint);
+         (1%nat, Nth 2); (1%nat, Next); (0%nat, NextBack); (0%nat, NthBack 0)]
+  = Ok [OHint 0 (Some 16); ONum 3; OCloned; OItem 1001; OHint 0 (Some 14); OItem 1013; OHint 0 (Some 2);
+        OItem 1013; ONone; OUnsupported; OUnsupported]
+  /\ fm_list (to_strs_f ex_flag_str 8226) (nseq 0 16) = [1001; 1005; 1013]
+  /\ fm_list (to_strs_f ex_flag_str 65535) (nseq 0 16) = [1000; 1001; 1002; 1003; 1004; 1005; 1006; 1007; 1013].
+Proof. exact ItersMoreProofs.ex_to_strs_run. Qed.
